@@ -233,6 +233,30 @@ harness! {
     }
 }
 
+// cdf()/quantile() as the FIRST read after an insert that is still in the backlog (bounded: one concrete insert): the tails and
+// end points are those of the data, not of the still empty centroid list
+harness! {
+    #[kani::unwind(6)]
+    fn c15_td_first_read_tails() {
+        let mut t = TDigest::new(K0::new(10.), 5);
+        t.insert_weighted(1.5, 2.0);
+        let which: u8 = any();
+        if which == 0 {
+            assert!(t.cdf(2.0) == 1., "C15 cdf is 1 from max() upward, also as first read after inserts");
+        } else if which == 1 {
+            assert!(t.cdf(1.5) == 1., "C15 cdf is 1 from max() upward, also as first read after inserts");
+        } else if which == 2 {
+            assert!(t.cdf(1.0) == 0., "C15 cdf is 0 below min()");
+        } else if which == 3 {
+            assert!(t.quantile(0.) == 1.5 && t.quantile(1.) == 1.5, "C15 quantile(0) == min, quantile(1) == max as first read");
+        } else {
+            let a = t.cdf(2.0);
+            let _ = t.count();
+            assert!(t.cdf(2.0).to_bits() == a.to_bits(), "C15 repeated reads return identical values");
+        }
+    }
+}
+
 // public wrapper: a positive finite weight always reaches the digest (complete, loop-free)
 harness! {
     fn c16_td_insert_weighted_wrapper() {
